@@ -227,11 +227,12 @@ ONEOF_PREFIX = {"subject": "s", "predicate": "p", "object": "o", "graph": "g"}
 ANY_DECODE_ERROR = ("IndexError", "JellyConformanceError", "KeyError", "ValueError", "TypeError", "NotImplementedError")
 
 
-@contract(f"{PD}:Decoder.decode_quoted_triple", serves=["C04"], trusted=True)
-class _decode_quoted_opaque:
-    """NOT verified (assumed, listed in the evidence): a quoted triple is decoded to *some* quoted-triple term or raises;
-    its nested denotation is outside the contracts (bounded nets only).  Needed so that statements with a quoted slot
-    can be handled by decode_statement's contract at all."""
+@contract(f"{PD}:Decoder.decode_quoted_triple", serves=["C04", "C16"])
+class _decode_quoted:
+    """A quoted triple is decoded to a quoted-triple term or refused, and the reader's tables stay spec tables whatever is
+    nested in it.  Verified against itself for the nested case (the recursive call goes through this contract: partial
+    correctness).  *Which* term comes out (the nested denotation) and exactly when it is refused are not specified here:
+    bounded nets only."""
     params = {"self": OBJ(DECODER), "triple": MSG("RdfTriple")}
     result = ADTS("gterm")
     modifies = ["self.names.last_reused_index", "self.names.T", "self.prefixes.last_reused_index", "self.prefixes.T",
@@ -239,7 +240,7 @@ class _decode_quoted_opaque:
 
     def requires(e): return wf_dec(e.self)
 
-    def raises(e): return {ANY_DECODE_ERROR: getattr(e.triple, "$qinvalid")}
+    def raises(e): return {("?",) + ANY_DECODE_ERROR: True}
 
     def on_raise(e): return {"anything": True}
 
@@ -276,11 +277,10 @@ def _iter_raises(e: Any, oneof: str, j: int) -> dict:
     bad = Or(And(sp["unset"], is_none(rep)),
              And(sp["iri"][0], Not(sp["iri"][1])),
              And(sp["literal"][0], Not(sp["literal"][1])))
+    out = {ANY_DECODE_ERROR: bad}
     if "quoted" in sp:
-        q = getattr(st, f"{ONEOF_PREFIX[oneof]}_triple_term")
-        if q is not None:
-            bad = Or(bad, And(sp["quoted"], getattr(q, "$qinvalid")))
-    return {ANY_DECODE_ERROR: bad}
+        out[("?",) + ANY_DECODE_ERROR] = sp["quoted"]      # a quoted slot may be refused (nested decoding)
+    return out
 
 
 def _iter_summary(e: Any, oneof: str, j: int) -> dict:
